@@ -128,8 +128,70 @@ func TestEndResultsTruthful(t *testing.T) {
 				}
 				return vis
 			}
+			rawLogs := func() string {
+				var b strings.Builder
+				for pt := int32(0); pt < p.NParts; pt++ {
+					recs, hwm, err := e.ReadLog(raw, "x", pt, 0)
+					fmt.Fprintf(&b, "  x/%d (hwm %d, err %v):", pt, hwm, err)
+					for _, r := range recs {
+						switch {
+						case r.Control:
+							typ := "?"
+							if len(r.Key) >= 4 {
+								typ = map[byte]string{0: "ABORT", 1: "COMMIT"}[r.Key[3]]
+							}
+							fmt.Fprintf(&b, " %d:%s(%d.%d)", r.Offset, typ, r.PID%1000, r.Epoch)
+						case r.Txn && len(r.Value) >= 8:
+							fmt.Fprintf(&b, " %d:t%d(%d.%d)", r.Offset, binary.BigEndian.Uint64(r.Value), r.PID%1000, r.Epoch)
+						default:
+							fmt.Fprintf(&b, " %d:d", r.Offset)
+						}
+					}
+					b.WriteString("\n")
+				}
+				return b.String()
+			}
+			reqTrace := func() string {
+				var b strings.Builder
+				body := func(ri *bubble.ReqInfo, flexible bool) []byte {
+					if len(ri.Frame) < 14 {
+						return nil
+					}
+					x := ri.Frame[12:]
+					cidLen := int(int16(binary.BigEndian.Uint16(x)))
+					x = x[2:]
+					if cidLen > 0 && cidLen <= len(x) {
+						x = x[cidLen:]
+					}
+					if flexible && len(x) > 0 {
+						x = x[1:]
+					}
+					return x
+				}
+				for _, ri := range e.Net.Requests() {
+					switch ri.Key {
+					case 22:
+						rq := kmsg.NewPtrInitProducerIDRequest()
+						rq.Version = ri.Version
+						if rq.ReadFrom(body(ri, rq.IsFlexible())) == nil {
+							fmt.Fprintf(&b, "  #%d conn%d InitProducerID v%d pid=%d epoch=%d act=%s handled=%v\n", ri.Seq, ri.Conn, ri.Version, rq.ProducerID%1000, rq.ProducerEpoch, ri.Act, ri.Handled)
+						}
+					case 26:
+						rq := kmsg.NewPtrEndTxnRequest()
+						rq.Version = ri.Version
+						if rq.ReadFrom(body(ri, rq.IsFlexible())) == nil {
+							fmt.Fprintf(&b, "  #%d conn%d EndTxn v%d pid=%d epoch=%d commit=%v act=%s handled=%v\n", ri.Seq, ri.Conn, ri.Version, rq.ProducerID%1000, rq.ProducerEpoch, rq.Commit, ri.Act, ri.Handled)
+						}
+					case 24:
+						fmt.Fprintf(&b, "  #%d conn%d AddPartitionsToTxn v%d act=%s handled=%v\n", ri.Seq, ri.Conn, ri.Version, ri.Act, ri.Handled)
+					case 0:
+						fmt.Fprintf(&b, "  #%d conn%d Produce v%d act=%s handled=%v\n", ri.Seq, ri.Conn, ri.Version, ri.Act, ri.Handled)
+					}
+				}
+				return b.String()
+			}
 			fail := func(format string, a ...any) {
-				rt.Fatalf("%s\nplan: %+v\nhistory tail:\n%s", fmt.Sprintf(format, a...), p, e.Log.Dump(50))
+				rt.Fatalf("%s\nplan: %+v\nraw logs:\n%stransactional requests on the wire:\n%shistory tail:\n%s", fmt.Sprintf(format, a...), p, rawLogs(), reqTrace(), e.Log.Dump(50))
 			}
 			checkAll := func(when string) {
 				vis := visible()
